@@ -314,11 +314,16 @@ func Harness_C07_Deactivate() {
 	want := mutateKey(m, k, &p)
 	from, until := verifrt.AnyI64("from"), verifrt.AnyI64("until")
 	verifrt.Assume(from > -(1<<62) && from < 1<<62 && until > -(1<<62) && until < 1<<62)
-	suffix := "sfx" + verifrt.AnyAtom("suffix")
+	suffixAtom := verifrt.AnyAtom("suffix")
+	suffix := "sfx" + suffixAtom
 	signedSuffix := suffix
-	if verifrt.Choose("suffix-mismatch", 2) == 1 {
+	switch verifrt.Choose("suffix-mismatch", 3) {
+	case 1:
 		signedSuffix = "sfx" + verifrt.AnyAtom("other-suffix")
 		verifrt.Assume(signedSuffix != suffix)
+		want = false
+	case 2: // differs in the case of one letter only
+		signedSuffix = "sfX" + suffixAtom
 		want = false
 	}
 	d := gen.NewDeactivate(signedSuffix, code, k, from, until)
